@@ -8,7 +8,7 @@ THEOREMS = ["Hyp.Keyword." + t for t in (
     "c02_noteq", "c02_notany", "c02_notall", "c02_notall_nil", "c02_no_stale", "c02_no_keyerror",
     "c02_erase_step", "c02_erase_run", "c02_erase_view", "c02_representation_independent",
     "c02_index_entry", "c02_query_entry_partial", "c02_notall_object_is_all", "c02_notall_object_differs")]
-CASES = {"quick": 4000, "thorough": 150000}
+CASES = {"quick": 8000, "thorough": 150000}
 BUDGET_S = {"quick": 40, "thorough": 700}
 RULE = ("histories of 5-60 (thorough: up to 400) index/reindex/unindex/reset/optimize/set-threshold calls over "
         "docids 0..15 plus extreme ids and 3-7 keywords (str or int, ranked for the model); a document's next "
